@@ -28,6 +28,10 @@ func runC13(c *an.Ctx) {
 	r13e(c)
 	r13f(c)
 	r13g(c)
+	// round 7
+	r13i(c)
+	c.As(map[string]string{"R05j": "R13h"}, func() { r05j(c) })
+	c.As(map[string]string{"R15j": "R13j"}, func() { r15j(c) })
 }
 
 func r13a(c *an.Ctx) {
